@@ -229,6 +229,10 @@ func (runInfo *runInfoStruct) runVarStmt(stmt *ast.VarStmt) {
 	for i = 0; i < len(rvs) && i < len(stmt.Names); i++ {
 		runInfo.env.DefineValue(stmt.Names[i], rvs[i])
 	}
+	// var binds every name it lists in this block: the ones without a value are nil
+	for ; i < len(stmt.Names); i++ {
+		runInfo.env.DefineValue(stmt.Names[i], nilValue)
+	}
 
 	// return last right side value
 	runInfo.rv = rvs[len(rvs)-1]
